@@ -218,6 +218,15 @@ def run_selftest(prop: str, repo_root: str, jobs: int = 16, only: Optional[List[
       continue
     if r['status'] not in GOOD[r['kind']]:
       failures.append(f'{r["id"]}({r["kind"]}):{r["status"]}:{r["detail"][:160]}')
+  # whole-repo behaviour-preserving rewrites: the check must stay silent on each of them
+  whole = []
+  if not only:
+    from fjsa.selftest import neutral
+    for kind, status, detail in neutral.run_for_property(prop, repo_root, jobs):
+      whole.append({'id': f'whole-repo:{kind}', 'kind': 'neutral', 'status': status, 'detail': detail})
+      if status != 'silent':
+        failures.append(f'whole-repo:{kind}(neutral):{status}:{detail[:160]}')
+    results = results + whole
   return {
       'mutants': len([r for r in results if r['kind'] == 'break']),
       'killed': len([r for r in results if r['kind'] == 'break' and r['status'] in GOOD['break']]),
